@@ -22,6 +22,7 @@ type PropConfig struct {
 	NotDecided []string `json:"not_decided"`
 	Assumes   []string `json:"assumptions"`
 	FieldGuardPkgs []string `json:"fieldguard_packages"`
+	Env       map[string]string `json:"env"`
 }
 
 type CheckConfig struct {
@@ -101,6 +102,11 @@ func RunCheck(cfg *CheckConfig) int {
 		fmt.Printf("ERROR cannot read property config: %v\n", err)
 		return 2
 	}
+	ExtraLoadEnv = nil
+	for k, v := range pc.Env {
+		ExtraLoadEnv = append(ExtraLoadEnv, k+"="+v)
+	}
+	sort.Strings(ExtraLoadEnv)
 	eng, err := Load(cfg.Repo, pc.Packages, filepath.Join(cfg.Verif, "engine", "lib"), cfg.Overlay)
 	if err != nil {
 		fmt.Printf("ERROR loading packages: %v\n", err)
@@ -137,13 +143,21 @@ func RunCheck(cfg *CheckConfig) int {
 		fc.fieldGuardsOn = true
 		fc.Run()
 		fnCount++
-		// a guard that matches no effect site of the function is a stale contract, not a pass
+		// a guard that matches no effect site of the function, or that cannot be elaborated at a site, is a
+		// stale contract, not a pass: reported as UNDECIDED; the function's other obligations are still checked
 		if len(fc.unsupported) == 0 {
 			for _, g := range con.Guards {
 				if fc.guardCount[g.Kind+" "+g.Target+" "+g.Cond.Text] == 0 && fc.guardCount[g.Kind+" "+g.Target] == 0 {
-					fc.unsupported = append(fc.unsupported, "contract-stale: guard "+g.Kind+" "+g.Target+" matches no site in "+fc.fnName())
-					break
+					undecided = append(undecided, fmt.Sprintf("UNDECIDED property=%s obligation=%s#guard#%s:%s reason=contract-stale (guard matches no site in the function)", cfg.Property, fc.fnName(), g.Kind, g.Target))
 				}
+			}
+			var sg []string
+			for txt := range fc.staleGuards {
+				sg = append(sg, txt)
+			}
+			sort.Strings(sg)
+			for _, txt := range sg {
+				undecided = append(undecided, fmt.Sprintf("UNDECIDED property=%s obligation=%s#guard reason=contract-stale (%s: %s)", cfg.Property, fc.fnName(), fc.staleGuards[txt], txt))
 			}
 		}
 		rep := &FnReport{Name: fc.fnName(), Obligations: len(fc.obls), Unsupported: fc.unsupported}
